@@ -156,6 +156,41 @@ def corruptions(ref, root='/work/plt', tier='quick', want=None):
                             new.append((kind, payload))
                     bf.segs = new
                 out.append(Corruption('L%d %s fab#%d dropped' % (l, fname, k), 'remove', drop))
+        # ---- 4b. data inserted into / removed from one FAB and the level header re-recorded: every later FAB of the file is
+        # listed at the byte position where its header really is, so only the byte distance between FAB k and its successor
+        # (the end of the file for the last one) disagrees with the box shape
+        for fname, bl in files:
+            nfab = len(bl)
+            for k in range(nfab):
+                nwords = len(ref.fab_words(l, bl[k]))
+                for delta in ([8, -8] if tier == 'quick' else [8, -8, 16, 1]):
+                    if delta < 0 and 8 * nwords + delta <= 0:
+                        continue
+
+                    def reidx(fs, ctx, l=l, fname=fname, bl=bl, k=k, delta=delta, cpath=cpath):
+                        bf = _bin(fs, root, l, fname).bf
+                        fab = -1
+                        new = []
+                        for kind, payload in bf.segs:
+                            if kind == HB:
+                                fab += 1
+                            if kind == WD and fab == k:
+                                if delta > 0:
+                                    new.append((WD, list(payload)))
+                                    new.append((RAW, b'\xff' * delta))
+                                else:
+                                    new.append((WD, list(payload[:delta // 8])))
+                            else:
+                                new.append((kind, payload))
+                        bf.segs = [s_ for s_ in new if len(s_[1])]
+                        n = fs.lookup(cpath)
+                        lines = n.s.split('\n')
+                        for b2 in bl[k + 1:]:
+                            ln = L['fabs'][b2]
+                            lines[ln] = 'FabOnDisk: %s %d' % (fname, offs[b2][1] + delta)
+                        n.s = '\n'.join(lines)
+                    out.append(Corruption('L%d %s fab#%d: %+d bytes of data, later FABs re-recorded at their real positions' % (l, fname, k, delta), 'reindexed', reidx))
+                    out[-1].site = (l, fname, k)
         # ---- 5. FAB header extents / component count changed
         for b in range(len(ref.boxes[l])):
             fname, off = offs[b]
